@@ -39,6 +39,8 @@ type c20case struct {
 	noPermute bool
 	// defOut: how the default output is spelled on the command line ("" = defpkg/default.go)
 	defOut string
+	// noCopies: no root type or definition of the case may come out a second time under a numbered name (X_1)
+	noCopies bool
 }
 
 const c20Mod = "example.com/mod"
@@ -250,6 +252,7 @@ func c20(ctx *Ctx) (*Outcome, error) {
 	cases = append(cases, c20NearNameCases()...)
 	cases = append(cases, c20EnumConstCases()...)
 	cases = append(cases, c20SharedIDCases()...)
+	cases = append(cases, c20TypelessRootCases()...)
 	n = len(cases)
 	results = make([]res, n)
 	stage.Parallel(n, func(i int) {
@@ -339,6 +342,23 @@ func c20(ctx *Ctx) (*Outcome, error) {
 				}
 			}
 		}
+		if c.noCopies {
+			for out, decls := range parsed {
+				for d := range decls {
+					if !strings.HasPrefix(d, "type ") {
+						continue
+					}
+					tn := strings.TrimPrefix(d, "type ")
+					if k := strings.LastIndexByte(tn, '_'); k > 0 && strings.Trim(tn[k+1:], "0123456789") == "" && tn[k+1:] != "" {
+						for _, names := range expectNames {
+							if names[tn[:k]] {
+								rs.problems = append(rs.problems, fmt.Sprintf("type %s is declared a second time as %s in %s", tn[:k], tn, out))
+							}
+						}
+					}
+				}
+			}
+		}
 		// (4) the emitted packages build together
 		if out, err := stage.GoRun(base.Dir, nil, "build", "./..."); err != nil {
 			rs.problems = append(rs.problems, "go build ./... of the emitted packages fails: "+trunc(string(out), 500))
@@ -367,6 +387,11 @@ func c20(ctx *Ctx) (*Outcome, error) {
 			for k, f := range c.fs.Files {
 				m := c.maps[f.Name]
 				if share[m.out] != 1 || solo >= ctx.N(2, 4) {
+					continue
+				}
+				if len(f.Root.Types) == 0 && len(f.Root.Props) > 0 {
+					// a root without `type` that carries properties: on its own the tool emits nothing for it, through a
+					// reference it is read as an object - DESIGN §3.17, not asserted
 					continue
 				}
 				solo++
@@ -835,6 +860,40 @@ func c20SharedIDCases() []*c20case {
 		om := c20map{pkg: c20Mod + "/orders", out: "orders/orders.go", rootType: "OrderJson"}
 		c.maps["order"] = om
 		c.flags = append(c.flags, "--schema-package", order.ID+"="+om.pkg, "--schema-output", order.ID+"="+om.out)
+		out = append(out, c)
+	}
+	return out
+}
+
+// c20TypelessRootCases: a schema file whose root has properties but no `type` keyword, mapped to a package of its own,
+// referred to from another schema as a whole file - inside an allOf / anyOf member AND as a plain $ref, in either order
+// of the two properties: the referenced root is declared once, every referrer is typed with that one declaration.
+func c20TypelessRootCases() []*c20case {
+	var out []*c20case
+	for v := 0; v < 8; v++ {
+		party := &sg.Schema{ID: "https://example.com/typeless/party", Props: []sg.Prop{{Name: "name", S: &sg.Schema{Types: []string{"string"}, MinLen: 1}}, {Name: "vat", S: &sg.Schema{Types: []string{"string"}}}}, Required: []string{"name"}}
+		if v%2 == 1 {
+			party.Types = []string{"object"} // the typed twin of the same layout
+		}
+		ref := func() *sg.Schema { return &sg.Schema{Ref: "party.json", Target: party} }
+		own := &sg.Schema{Types: []string{"object"}, Props: []sg.Prop{{Name: "poBox", S: &sg.Schema{Types: []string{"string"}}}}}
+		comp := &sg.Schema{AllOf: []*sg.Schema{ref(), own}}
+		if (v/2)%2 == 1 {
+			comp = &sg.Schema{AnyOf: []*sg.Schema{ref(), own}}
+		}
+		names := [2]string{"billing", "shipping"} // the composed one sorts first
+		if (v/4)%2 == 1 {
+			names = [2]string{"zbilling", "shipping"} // the plain one sorts first
+		}
+		order := &sg.Schema{ID: "https://example.com/typeless/order", Types: []string{"object"}, Props: []sg.Prop{{Name: names[0], S: comp}, {Name: names[1], S: ref()}, {Name: "contacts", S: &sg.Schema{Types: []string{"array"}, Items: ref()}}}}
+		fp := &sg.SchemaFile{Path: "party.json", Root: party, ID: party.ID, Name: "party"}
+		fo := &sg.SchemaFile{Path: "order.json", Root: order, ID: order.ID, Name: "order"}
+		c := &c20case{fs: &sg.FileSet{Files: []*sg.SchemaFile{fo, fp}}, maps: map[string]c20map{}, sig: fmt.Sprintf("typeless-referenced-root v=%d", v), noCopies: true}
+		for _, f := range []*sg.SchemaFile{fo, fp} {
+			m := c20map{pkg: c20Mod + "/" + f.Name, out: f.Name + "/gen.go", rootType: f.RootType()}
+			c.maps[f.Name] = m
+			c.flags = append(c.flags, "--schema-package", f.ID+"="+m.pkg, "--schema-output", f.ID+"="+m.out)
+		}
 		out = append(out, c)
 	}
 	return out
